@@ -225,7 +225,8 @@ example :
 /-- **request_cannot_extend.** With the default template (JWK, X5C, OIDC non-administrator, Nebula) the
     request options can make the request fail but never change the result: any two requests
     that are both issued under the same token get the same certificate fields and signer. -/
-theorem request_cannot_extend (ca : CAKeys) (prov : Prov) (hp : prov ≠ .oidc true) (hk : prov ≠ .k8ssa) (t : Token) (o : Oidc)
+theorem request_cannot_extend (ca : CAKeys) (prov : Prov) (hp : prov ≠ .oidc true) (hk : prov ≠ .k8ssa)
+    (ha : ∀ d, prov ≠ .aws d) (t : Token) (o : Oidc)
     (req req' : Opts) (key key' : KeyClass) (rv rv' : RVal) (c c' : Cert) (sg sg' : Signer)
     (h : sshSign ca prov t o req key rv = .issued c sg)
     (h' : sshSign ca prov t o req' key' rv' = .issued c' sg') : c = c' ∧ sg = sg' := by
@@ -246,6 +247,7 @@ theorem request_cannot_extend (ca : CAKeys) (prov : Prov) (hp : prov ≠ .oidc t
       | false => have := (authorizeSign_ok hp1).2; simp [authorizeClaims] at this; rw [← this]
     | nebula => exact (authorizeClaims_nebula (authorizeSign_ok hp1).2).1
     | k8ssa => exact absurd rfl hk
+    | aws d => exact absurd rfl (ha d)
   simp only [applyTemplate, hd] at ht ht'
   rw [ht] at ht'; injection ht' with hcc
   subst hcc
@@ -396,6 +398,47 @@ theorem k8ssa_fields_from_request (ca : CAKeys) (t : Token) (o : Oidc) (req : Op
       · cases ct <;> simp [CT.num]
       · intro he; rw [he] at hr; simp at hr
   · cases hc
+
+/-! ## 2c'. AWS instance identity -/
+
+/-- **aws_dcs_principals.** AWS provisioner with `disableCustomSANs`: an issued certificate is a
+    *host* certificate signed with the host key, its key id is the instance id, and every
+    principal is (case-insensitively) one of the two names the signed identity document validates
+    (the private IP and `ip-…compute.internal`; the list is never empty in the code) — for every
+    request. -/
+theorem aws_dcs_principals (ca : CAKeys) (t : Token) (o : Oidc) (req : Opts) (key : KeyClass) (rv : RVal)
+    (c : Cert) (sg : Signer) (hval : o.usernames ≠ [])
+    (h : sshSign ca (.aws true) t o req key rv = .issued c sg) :
+    c.ct = 2 ∧ sg = .hostKey ∧ c.keyID = o.email ∧
+    (∀ x ∈ c.principals, ∃ y ∈ o.usernames, Str.lower x = Str.lower y) := by
+  obtain ⟨p, hp, hs⟩ := sshSign_issued h
+  obtain ⟨_, hc, ht, hsel, _⟩ := signSSH_issued hs
+  have hp := (authorizeSign_ok hp).2
+  simp only [authorizeClaims] at hp
+  injection hp with hp
+  subst hp
+  simp only [applyTemplate] at ht
+  injection ht with ht
+  subst ht
+  refine ⟨rfl, ?_, rfl, ?_⟩
+  · rcases selectSigner_inr hsel with ⟨h1, _, _⟩ | ⟨_, h2, _⟩
+    · simp [CT.num] at h1
+    · exact h2
+  · simp only [if_true, List.nil_append, checkOpts] at hc
+    split at hc
+    · rename_i hm
+      simp only [matchOpts, Bool.and_eq_true, Bool.not_eq_true'] at hm
+      have hm2 := hm.2
+      intro x hx
+      simp only at hx
+      by_cases hr : req.principals.length > 0
+      · simp only [hr, if_true] at hx
+        have hu : o.usernames.length > 0 := List.length_pos_iff.mpr hval
+        simp [hr, hu] at hm2
+        exact containsAllMembers_sound _ _ hm2 x hx
+      · simp only [hr, if_false] at hx
+        exact ⟨x, hx, rfl⟩
+    · cases hc
 
 /-! ## 2d. add-user certificate -/
 
